@@ -43,12 +43,14 @@ impl MatchArm {
                 })
             }
             Rule::match_value => {
-                let inner_values = pair.into_inner();
-                let values = inner_values
+                // `values` is a silent rule: the value expressions and the body are siblings
+                let mut pairs: Vec<Pair<Rule>> = std::iter::once(pair).chain(inner).collect();
+                let body = pairs.pop().unwrap();
+                let values = pairs
+                    .into_iter()
                     .map(|pair| InstructionWithStr::new(pair, local_variables))
                     .collect::<Result<Arc<[InstructionWithStr]>, Error>>()?;
-                let pair = inner.next().unwrap();
-                let instruction = InstructionWithStr::new(pair, local_variables)?;
+                let instruction = InstructionWithStr::new(body, local_variables)?;
                 Ok(Self::Value(values, instruction))
             }
             Rule::match_other => {
